@@ -57,7 +57,10 @@ def generate(rng, tier):
         elif rng.random() < 0.1:
             args.append("-n")
         ops.append(scen.cmd("create", "@R", *args))
-        ops.append(scen.gen_advance(rng))
+        if rng.random() < 0.15:
+            ops.append({"op": "step_back", "us": rng.choice([2_000_000, 3_600_000_000, 90_000_000])})
+        else:
+            ops.append(scen.gen_advance(rng))
     # restore everything in most runs so that verify -pl can succeed
     if rng.random() < 0.75:
         for f in sorted(altered):
